@@ -4,7 +4,9 @@ use super::core::{
     NamedObject, Operand, Rvalue, Statement, Terminator, Void,
 };
 use crate::diagnostic::Diagnostics;
-use crate::opcode::{BinaryArithOp, BinaryLogicalOp, BinaryOp, BuiltinFunctionKind, UnaryOp};
+use crate::opcode::{
+    BinaryArithOp, BinaryLogicalOp, BinaryOp, BuiltinFunctionKind, ComparisonOp, UnaryOp,
+};
 use crate::qmlast::StatementNode;
 use crate::typedexpr::{
     self, DescribeType, ExpressionError, ExpressionVisitor, RefSpace, TypeAnnotationSpace, TypeDesc,
@@ -393,10 +395,7 @@ impl<'a> ExpressionVisitor<'a> for CodeBuilder<'a> {
                     ));
                 }
                 // Nor does the result of a function returning nothing.
-                if let Some(a) = arguments
-                    .iter()
-                    .find(|a| a.type_desc() == TypeDesc::VOID)
-                {
+                if let Some(a) = arguments.iter().find(|a| a.type_desc() == TypeDesc::VOID) {
                     return Err(ExpressionError::OperationOnUnsupportedType(
                         "console.log".to_owned(),
                         a.type_desc(),
@@ -771,8 +770,24 @@ impl<'a> CodeBuilder<'a> {
                     | &TypeKind::UINT
                     | &TypeKind::DOUBLE
                     | &TypeKind::STRING
-                    | TypeKind::Just(NamedType::Enum(_))
-                    | TypeKind::Pointer(_) => Ok(TypeKind::BOOL),
+                    | TypeKind::Just(NamedType::Enum(_)) => Ok(TypeKind::BOOL),
+                    TypeKind::Pointer(_) => {
+                        // A pointer can be tested for (in)equality, also against null, but
+                        // "p < nullptr" isn't valid C++.
+                        let ordered = !matches!(op, ComparisonOp::Equal | ComparisonOp::NotEqual);
+                        if ordered
+                            && (left.type_desc() == TypeDesc::NullPointer
+                                || right.type_desc() == TypeDesc::NullPointer)
+                        {
+                            Err(ExpressionError::OperationOnUnsupportedTypes(
+                                op.to_string(),
+                                left.type_desc(),
+                                right.type_desc(),
+                            ))
+                        } else {
+                            Ok(TypeKind::BOOL)
+                        }
+                    }
                     _ => Err(unsupported(TypeDesc::Concrete(ty))),
                 }
             }
